@@ -130,7 +130,7 @@ PROPS["C20"] = dict(
 PROPS["C14"] = dict(
     level="proof",
     runs=[dict(bin="c14")],
-    quick=dict(n=3000, shards=16),
+    quick=dict(n=3600, shards=16),
     thorough=dict(n=80000, shards=64, run_timeout=3000, coq_case_timeout=3000),
     trusted_base=[
         "model coq/C14/Model.v of order_by/cmp_bindings_with (exec.rs), sparql_cmp/sparql_order_by/order_by_class (expression.rs), SparqlValue::partial_cmp/order_by_class/order_by_cmp (value.rs), SparqlNumber coercing comparison and exact_cmp (_number.rs), XsdDateTime partial_cmp/timeline_cmp (hand-written); Term::cmp from Common/Term.v (C02)",
@@ -266,7 +266,7 @@ _C05_MODEL = [
 ]
 PROPS["C05"] = dict(
     level="proof", translators=[translate.gen_consts], runs=[dict(bin="c05")],
-    quick=dict(n=900, shards=32),
+    quick=dict(n=1200, shards=32),
     thorough=dict(n=8000, shards=64, args=["--thorough"], run_timeout=3000, coq_case_timeout=3000),
     trusted_base=_C05_MODEL,
     assumptions=["datasets well-formed (wf_quad: IRIs without '>', labels/tags without space, IRI predicates, graph names IRI or blank)",
@@ -320,13 +320,13 @@ PROPS["C16"] = dict(
 
 PROPS["C18"] = dict(
     level="proof", runs=[dict(bin="c18")],
-    quick=dict(n=400, shards=16),
+    quick=dict(n=540, shards=16),
     thorough=dict(n=20000, shards=128, run_timeout=3000, coq_case_timeout=3000),
     trusted_base=[
         "coq/C18/Model.v: hand transcription of convert_triple / serialize_triples (and the Checked wrapper of the fix) and of rio_xml 0.8.6 formatter.rs/parser.rs and quick-xml 0.36.2 escape.rs/writer.rs; documents compared byte for byte, both parses compared triple by triple",
         "strict reader written from XML 1.0 (2.2, 2.11, 3.3.3, 4.1), Namespaces in XML and the RDF/XML rules for the formatter's vocabulary; cross-checked against an independent Rust reference reader in c18.rs",
         "XML lexing (bytes to events) is not modelled; pads are proved never adjacent to text",
-        "IRI (oxiri) and BCP47 (oxilangtag) validation in Rio's reader is not modelled",
+        "IRI handling of Rio's reader is modelled in coq/C18/Iris.v (RFC 3986 scheme rule, the RFC 3987 grammar of C09, a transcription of oxiri's resolver, reading with and without a base); BCP47 (oxilangtag) validation is not modelled",
         "the harness probes whether the repair is present and checks against the matching model variant",
     ],
     assumptions=["terms valid per sophia's BnodeId/IriRef/LanguageTag", "no DOCTYPE, so no custom entities"],
